@@ -20,6 +20,7 @@ namespace igris
     public:
         inline void wait() const
         {
+            IGRIS_VERIF_POINT("ev_wenter", this, 0);
             std::unique_lock<std::mutex> _lock(m_mutex);
 #ifdef IGRIS_VERIF
             IGRIS_VERIF_POINT("ev_wlock", this, m_bFlag);
@@ -48,6 +49,7 @@ namespace igris
         inline bool signal()
         {
             bool bWasSignalled;
+            IGRIS_VERIF_POINT("ev_senter", this, 0);
             m_mutex.lock();
             IGRIS_VERIF_POINT("ev_slock", this, 0);
             bWasSignalled = m_bFlag;
@@ -59,6 +61,7 @@ namespace igris
             m_condition.notify_all();
             IGRIS_VERIF_POINT("ev_sunlock", this, 0);
             m_mutex.unlock();
+            IGRIS_VERIF_POINT("ev_sleft", this, 0);
             return bWasSignalled == false;
         }
 
